@@ -1,5 +1,5 @@
 (* C07 — deriving a new object never changes the one it was derived from *)
-From NDV Require Import M_Store P_Store.
+From NDV Require Import M_Store P_Store P_StoreShare.
 Open Scope nat_scope.
 
 (* one operation: every observable of every object that existed before it is unchanged *)
@@ -27,6 +27,14 @@ Print Assumptions C07_table_wellformed.
 Theorem C07_arithmetic_data_fresh : mode_of (sig_of KArith) FData = Some Fresh.
 Proof. exact arith_data_fresh. Qed.
 Print Assumptions C07_arithmetic_data_fresh.
+
+(* the converse, which is why the sharing table is measured against the implementation: a field marked Share refers,
+   in the derived object, to the very cell of its source (a slice's data is a view, its meta the same dict) *)
+Theorem C07_shared_cell : forall sg k c st f l, NoDup (map fst sg) -> mode_of sg f = Some Share ->
+  get_loc (nth k (objs st) []) f = Some l ->
+  get_loc (nth (length (objs st)) (objs (derive sg k c st)) []) f = Some l.
+Proof. exact shared_field_same_cell. Qed.
+Print Assumptions C07_shared_cell.
 
 Example C07_nonvacuous :
   let st0 := mkS [10; 20; 30]%Z [[(FData, 0); (FMeta, 1); (FGlobal, 2)]] in
